@@ -1,6 +1,6 @@
 CONSTANTS
   Clients = {"c1", "c2", "c3"}
-  HostOf <- H3
+  HostOf <- H3d
   NBlocks = 1
   BlockBits = 1
   Handles = {"hA"}
@@ -21,5 +21,5 @@ CONSTANTS
 INIT Init
 NEXT Next
 VIEW MCView
-INVARIANTS NoDoubleOwner HandleNeverUndercounts AtMostOneConfirmed ConfirmedMatchesBlock BlockAffHasAff HandleAgreementQuiescent
+INVARIANTS NoDoubleOwner HandleNeverUndercounts AtMostOneConfirmed ConfirmedMatchesBlock HandleAgreementQuiescent
 CHECK_DEADLOCK FALSE
